@@ -28,4 +28,4 @@ s = open(p).read()
 i = s.index('## 6.1 Seeded changes')
 j = s.index('## 7. Cost')
 open(p, 'w').write(s[:i] + text + '\n' + s[j:])
-print(len(rows), 'seeds;', sum('missed' in r for r in rows), 'missed')
+print(len(rows), 'seeds;', sum('| **missed** |' in r for r in rows), 'missed')
